@@ -15,6 +15,9 @@ CONSTANTS
   FixNullRequired = TRUE
   HasValidator = TRUE
   NilPointerSkipsValidation = FALSE
+  CtxChoices = {"live"}
+  GateChoices = {FALSE}
+  SilentOnCtx = {}
 INIT Init
 NEXT Next
 VIEW view
